@@ -64,7 +64,9 @@ def check(ctx):
         rounded = t[0] == "call" and t[1][0] == "attr" and t[1][2] == "round"
         ctx.ob("C02.R2.round", f"{nf.qualname}|{side} rounded", rounded, nf.where(), f"{side} bound is rounded to whole votes" if rounded else f"{side} bound is not rounded")
         inner = t[1][1] if rounded else t
-        ctx.require(inner[0] == "attr", f"{nf.where()}: {side} is not a column of the aggregate table")
+        cr_ = ir.column_ref(inner)
+        ctx.require(cr_ is not None, f"{nf.where()}: {side} is not a column of the aggregate table")
+        inner = ("attr", cr_[0], cr_[1])
         tabs[side] = inner[1]
         val = F.col(inner[1], ("const", inner[2]))
         check_sum(ctx, "C02.R2.bounds", nf, f"{side} bound", val,
@@ -109,8 +111,10 @@ def check(ctx):
             for i, side in enumerate(("lower", "upper")):
                 x = t[2][i]
                 col = x[1][1] if x[0] == "call" else x
-                ctx.ob("C02.R5.sides", f"{gf.qualname}|argument {i} is the {side} bound", col[0] == "attr" and col[2] == side, gf.where(n),
-                       f"PredictionIntervals argument {i} is the '{side}' column" if col[0] == "attr" and col[2] == side else f"argument {i} is {ir.show(col, maxdepth=2)}")
+                cr_ = ir.column_ref(col)
+                oks_ = cr_ is not None and cr_[1] == side
+                ctx.ob("C02.R5.sides", f"{gf.qualname}|argument {i} is the {side} bound", oks_, gf.where(n),
+                       f"PredictionIntervals argument {i} is the '{side}' column" if oks_ else f"argument {i} is {ir.show(col, maxdepth=2)}")
     # bootstrap: indicator columns vs sorted table
     bc = repo.cls(BM, "BootstrapElectionModel")
     for qn in ("get_aggregate_predictions", "get_aggregate_prediction_intervals"):
